@@ -355,7 +355,10 @@ fn execute(prog: Program) -> Outcome {
         }
         // distinct replicated messages per client operation: small constant
         let distinct = b.copies.len() as u64;
-        if distinct > 3 * client_ops {
+        // one replicated message per client operation; the arbiter path sends the $conflicts_ record of
+        // the conflicting write, then the resolved marker and the resolve itself (small constant)
+        let max_distinct = if matches!(op, Op::ConflictAndResolve { .. }) { 3 * client_ops } else { client_ops };
+        if distinct > max_distinct {
             out.violations.push(Violation::new(
                 "too-many-messages",
                 shape.clone(),
@@ -392,7 +395,7 @@ impl Property for C14 {
         (10_000, 300_000)
     }
     fn rule(&self) -> &'static str {
-        "stable clusters of 2-3 real nodes; 1-5 client-visible commands of {set,set-safe,remove,increment,get,keys,watch,create-db,create-user,set-permissions,snapshot,cluster-state,metrics-state, conflicting write on an arbiter database + the arbiter's resolve (arbiter on any node)} issued one at a time on a seeded node; every line crossing a simulated inter-node link is recorded and attributed: forwards to the primary <= 1 per client operation, copies of one replicated message <= number of secondaries, acks <= copies, distinct replicated messages <= 3 per client operation, nothing from secondary to secondary, quiescence within 8 simulated s and no line during a further 2 x election timeout. Non-trivial: the command produced at least one inter-node line. distinct = distinct (program, task-switch sequence)."
+        "stable clusters of 2-3 real nodes; 1-5 client-visible commands of {set,set-safe,remove,increment,get,keys,watch,create-db,create-user,set-permissions,snapshot,cluster-state,metrics-state, conflicting write on an arbiter database + the arbiter's resolve (arbiter on any node)} issued one at a time on a seeded node; every line crossing a simulated inter-node link is recorded and attributed: forwards to the primary <= 1 per client operation, copies of one replicated message <= number of secondaries, acks <= copies, distinct replicated messages <= 1 per client operation (<= 3 on the arbiter conflict/resolve path), nothing from secondary to secondary, quiescence within 8 simulated s and no line during a further 2 x election timeout. Non-trivial: the command produced at least one inter-node line. distinct = distinct (program, task-switch sequence)."
     }
     fn assumptions(&self) -> Vec<String> {
         vec!["membership/election traffic is not generated in this check (the cluster is stable); `ok` replies to link commands are not counted as messages".into()]
